@@ -222,7 +222,7 @@ func itemToVal(dir string, pl lorawan.Payload) M {
 func valToItem(dir string, it M) lorawan.Payload {
 	switch it["t"] {
 	case "raw":
-		return &lorawan.DataPayload{Bytes: unbs(it["b"])}
+		return &lorawan.DataPayload{Bytes: unbsAny(it["b"])}
 	default:
 		cid := num(it["cid"])
 		mc := &lorawan.MACCommand{CID: lorawan.CID(cid)}
@@ -246,6 +246,8 @@ func valToItem(dir string, it M) lorawan.Payload {
 
 func unbsAny(v interface{}) []byte {
 	switch t := v.(type) {
+	case []byte:
+		return t
 	case []int:
 		out := make([]byte, len(t))
 		for i, x := range t {
